@@ -1,6 +1,7 @@
 import S2T.Drv.Util
 import S2T.Gen.Router
 import S2T.Gen.Archive
+import S2T.Model.ArchiveGuard
 namespace S2T.Drv.C09
 open Lean S2T.Drv S2T.Archive
 open S2T.Router (Str)
@@ -179,7 +180,12 @@ def sevenOp (j : Json) : Except String Json := do
   let out := match t.out with
     | .finished => "finished" | .closed => "closed" | .notStarted => "notStarted"
     | .failed e => "failed:" ++ errName e
-  return Json.mkObj [("evs", Json.arr (t.evs.map jEv).toArray), ("res", jRes t.res), ("out", Json.str out)]
+  -- content of the private directory when it is removed (`tempFiles`: Props/C09_Filter.lean is about this function)
+  let tmp := match j.getObjValAs? String "variant" with
+    | .ok "old" => []
+    | _ => tempFiles T nested env lim cwd base a c
+  return Json.mkObj [("evs", Json.arr (t.evs.map jEv).toArray), ("res", jRes t.res), ("out", Json.str out),
+    ("tmp", Json.arr (tmp.map (fun pd => Json.arr #[jStr pd.1, jNats pd.2])).toArray)]
 
 private def fsEvent (x : Json) : Except String FsEvent := do
   let a ← x.getArr?
